@@ -72,10 +72,6 @@ package crypto
 //@ requires a != nil
 //@ assigns nothing
 
-//@ cfunc E2_is_infty pure
-//@ requires p != nil
-//@ assigns nothing
-
 //@ cfunc G2_check_log pure props C07 C09
 //@ requires x != nil && y != nil
 //@ assigns nothing
@@ -468,6 +464,7 @@ package crypto
 //@ ensures result == s.jointRunning
 
 //@ func (*JointFeldmanState).ForceDisqualify mode int props C10 C09
+//@ dead-return 3   // the instance cannot refuse: it is running and the index was checked
 //@ requires jfInv(s)
 //@ assigns s.fvss[:]
 //@ ensures [reject-idle] !old(s.jointRunning) ==> iserr(result, *dkgInvalidStateTransitionError) && nothingAssigned()
@@ -524,8 +521,8 @@ package crypto
 //@ cfunc limbs_from_be_bytes nobody params ret in n
 //@ requires ret != nil && valid(in, n)
 //@ assigns ret[0:1]
-//@ ensures n == 48 ==> ret[0] == be48(in[0:48])
-//@ ensures n == 32 ==> ret[0] == be32(in[0:32])
+//@ ensures n == 48 ==> ret[0] == old(be48(in[0:48]))
+//@ ensures n == 32 ==> ret[0] == old(be32(in[0:32]))
 
 //@ cfunc be_bytes_from_limbs nobody params out in n
 //@ requires in != nil && valid(out, n)
@@ -607,8 +604,8 @@ package crypto
 //@ requires in_len == 48 ==> valid(in, 48)
 //@ assigns *out
 //@ ensures [length] in_len != 48 ==> result == BAD_ENCODING
-//@ ensures [range] in_len == 48 ==> (result == VALID) == (be48(in[0:48]) < FpP()) && (result == VALID || result == BAD_VALUE)
-//@ ensures [value] result == VALID ==> *out == be48(in[0:48])
+//@ ensures [range] in_len == 48 ==> (result == VALID) == old(be48(in[0:48]) < FpP()) && (result == VALID || result == BAD_VALUE)
+//@ ensures [value] result == VALID ==> *out == old(be48(in[0:48]))
 
 //@ cfunc Fp_write_bytes props C05 C09
 //@ requires a != nil && valid(out, 48)
@@ -625,13 +622,13 @@ package crypto
 
 //@ cfunc E1_set_infty props C05
 //@ requires p != nil
-//@ assigns p.z
-//@ ensures p.z == 0
+//@ assigns *p
+//@ ensures e1IsInf(*p)
 
 //@ cfunc E1_is_infty props C05
 //@ requires p != nil
 //@ assigns nothing
-//@ ensures result == (p.z == 0)
+//@ ensures result == e1IsInf(*p)
 
 // g1x(b): the x coordinate encoded in the 48 bytes b (flag bits cleared)
 //@ pred g1x(b) = be48(b[0:48]) - (b[0]/32)*4925250774549309901534880012517951725634967408808180833493536675530715221437151326426783281860614455100828498788352
@@ -644,10 +641,92 @@ package crypto
 //@ ensures [length] in_len != 48 ==> result == BAD_ENCODING
 //@ ensures [compression-bit] old(in_len == 48 && !g1flagC(in)) ==> result == BAD_ENCODING
 //@ ensures [infinity-canonical] old(in_len == 48 && g1flagC(in) && g1flagI(in)) ==> (result == VALID) == old(g1infEnc(in)) && (result == VALID || result == BAD_ENCODING)
-//@ ensures [infinity-value] old(in_len == 48 && g1flagI(in)) && result == VALID ==> a.z == 0
+//@ ensures [infinity-value] old(in_len == 48 && g1flagI(in)) && result == VALID ==> e1IsInf(*a)
 //@ ensures [x-range] old(in_len == 48 && g1flagC(in) && !g1flagI(in) && g1x(in) >= FpP()) ==> result == BAD_VALUE
 //@ ensures [x-in-range-not-bad-value] old(in_len == 48 && g1flagC(in) && !g1flagI(in) && g1x(in) < FpP()) ==> result != BAD_VALUE && result != BAD_ENCODING
 //@ ensures [on-curve] old(in_len == 48 && g1flagC(in) && !g1flagI(in) && g1x(in) < FpP()) ==> (result == VALID) == old(fpSqrtOk(g1rhs(fpToMont(g1x(in))))) && (result == VALID || result == POINT_NOT_ON_CURVE)
 //@ ensures [value-x] old(in_len == 48 && !g1flagI(in)) && result == VALID ==> a.x == old(fpToMont(g1x(in))) && a.z == cglobal(BLS12_381_pR)
 //@ ensures [value-y] old(in_len == 48 && !g1flagI(in)) && result == VALID ==> (fpSgn(fpSqrtM(g1rhs(a.x))) == old((in[0]/32)%2) ==> a.y == fpSqrtM(g1rhs(a.x))) && (fpSgn(fpSqrtM(g1rhs(a.x))) != old((in[0]/32)%2) ==> a.y == fpNegM(fpSqrtM(g1rhs(a.x))))
 //@ loop 1 invariant 1 <= i && i <= 48 && forall(k, 1, i, in[k] == 0)
+
+// ---- F_p^2 and E2 (G2) serialization. The ZCash format writes an F_p^2 element c0 + c1*u as c1 || c0
+// (the coefficient of u first); real(a) is c0 = a[0], imag(a) is c1 = a[1].
+
+//@ cfunc Fp2_squ_montg nobody
+//@ requires res != nil && a != nil
+//@ assigns *res
+//@ ensures *res == fp2SquM(old(*a))
+
+//@ cfunc Fp2_mul_montg nobody
+//@ requires res != nil && a != nil && b != nil
+//@ assigns *res
+//@ ensures *res == fp2MulM(old(*a), old(*b))
+
+//@ cfunc Fp2_add nobody
+//@ requires res != nil && a != nil && b != nil
+//@ assigns *res
+//@ ensures *res == fp2AddM(old(*a), old(*b))
+
+//@ cfunc Fp2_neg nobody
+//@ requires res != nil && a != nil
+//@ assigns *res
+//@ ensures *res == fp2NegM(old(*a))
+
+//@ cfunc Fp2_sqrt_montg nobody
+//@ requires res != nil && a != nil
+//@ assigns *res
+//@ ensures result == fp2SqrtOk(old(*a)) && (result ==> *res == fp2SqrtM(old(*a)))
+
+//@ cfunc Fp2_get_sign nobody pure
+//@ requires y != nil
+//@ assigns nothing
+//@ ensures result == fp2Sgn(*y)
+
+//@ cfunc E2_affine_on_curve nobody pure
+//@ requires p != nil
+//@ assigns nothing
+
+//@ cfunc Fp2_read_bytes props C05 C09
+//@ requires a != nil
+//@ requires in_len == 96 ==> valid(in, 96) && disjoint(in[0:96], *a)
+//@ assigns *a
+//@ ensures [length] in_len != 96 ==> result == BAD_ENCODING
+//@ ensures [range] in_len == 96 ==> (result == VALID) == old(be48(in[0:48]) < FpP() && be48(in[48:96]) < FpP()) && (result == VALID || result == BAD_VALUE)
+//@ ensures [zcash-order-c1-first] result == VALID ==> a[1] == old(be48(in[0:48])) && a[0] == old(be48(in[48:96]))
+
+//@ cfunc Fp2_write_bytes props C05 C09
+//@ requires a != nil && valid(out, 96)
+//@ assigns out[0:96]
+//@ ensures [zcash-order-c1-first] be48(out[0:48]) == a[1] && be48(out[48:96]) == a[0]
+
+//@ cfunc E2_set_infty props C05
+//@ requires p != nil
+//@ assigns *p
+//@ ensures e2IsInf(*p)
+
+//@ cfunc E2_is_infty props C05
+//@ requires p != nil
+//@ assigns nothing
+//@ ensures result == e2IsInf(*p)
+
+//@ pred g2infEnc(b) = b[0] == 192 && forall(k, 1, 96, b[k] == 0)
+// x = x0 + x1*u with x1 in the first 48 bytes (flag bits cleared) and x0 in the last 48
+//@ pred g2x1(b) = be48(b[0:48]) - (b[0]/32)*4925250774549309901534880012517951725634967408808180833493536675530715221437151326426783281860614455100828498788352
+//@ pred g2x0(b) = be48(b[48:96])
+//@ pred g2rhs(x) = fp2AddM(fp2MulM(fp2SquM(x), x), cglobal2(B_E2))
+
+//@ cfunc E2_read_bytes props C05 C09
+//@ requires a != nil
+//@ requires in_len == 96 ==> valid(in, 96)
+//@ assigns *a
+//@ ensures [length] in_len != 96 ==> result == BAD_ENCODING
+//@ ensures [compression-bit] old(in_len == 96 && !g1flagC(in)) ==> result == BAD_ENCODING
+//@ ensures [infinity-canonical] old(in_len == 96 && g1flagC(in) && g1flagI(in)) ==> (result == VALID) == old(g2infEnc(in)) && (result == VALID || result == BAD_ENCODING)
+//@ ensures [infinity-value] old(in_len == 96 && g1flagI(in)) && result == VALID ==> e2IsInf(*a)
+//@ ensures [x-range] old(in_len == 96 && g1flagC(in) && !g1flagI(in) && (g2x1(in) >= FpP() || g2x0(in) >= FpP())) ==> result == BAD_VALUE
+//@ ensures [x-in-range-not-bad-value] old(in_len == 96 && g1flagC(in) && !g1flagI(in) && g2x1(in) < FpP() && g2x0(in) < FpP()) ==> result != BAD_VALUE && result != BAD_ENCODING
+//@ ensures [on-curve] old(in_len == 96 && g1flagC(in) && !g1flagI(in) && g2x1(in) < FpP() && g2x0(in) < FpP()) ==> (result == VALID) == fp2SqrtOk(g2rhs(fp2c(fpToMont(old(g2x0(in))), fpToMont(old(g2x1(in)))))) && (result == VALID || result == POINT_NOT_ON_CURVE)
+//@ ensures [value-x-zcash-order] old(in_len == 96 && !g1flagI(in)) && result == VALID ==> a.x[0] == fpToMont(old(g2x0(in))) && a.x[1] == fpToMont(old(g2x1(in)))
+//@ ensures [value-z] old(in_len == 96 && !g1flagI(in)) && result == VALID ==> a.z[0] == cglobal(BLS12_381_pR) && a.z[1] == 0
+//@ ensures [value-y] old(in_len == 96 && !g1flagI(in)) && result == VALID ==> (fp2Sgn(fp2SqrtM(g2rhs(a.x))) == old((in[0]/32)%2) ==> a.y == fp2SqrtM(g2rhs(a.x))) && (fp2Sgn(fp2SqrtM(g2rhs(a.x))) != old((in[0]/32)%2) ==> a.y == fp2NegM(fp2SqrtM(g2rhs(a.x))))
+//@ loop 1 invariant 1 <= i && i <= 96 && forall(k, 1, i, in[k] == 0)
